@@ -45,6 +45,19 @@ Definition from_specifier (name : vname) (s : spec) : pyres fsres :=
   | Some (k :: _) => Ret (FAtom (match name with PFV => pad_pfv k | _ => k end))
   end.
 
+(* _merge_single_markers(marker1, marker2, cls) for two atoms on the SAME version-like variable (kind: true = MultiMarker / &) *)
+Inductive vmres := VMFirst | VMSecond | VMNone | VMAny | VMEmpty | VMAtom (c : clause).
+Definition vmerge_same (kind : bool) (name : vname) (c1 c2 : clause) : pyres vmres :=
+  s1 <- get_specifier c1 ;;
+  s2 <- get_specifier c2 ;;
+  rs <- (if kind then spec_and s1 s2 else spec_or s1 s2) ;;
+  e1 <- spec_eq rs s1 ;;
+  if e1 then Ret VMFirst else
+  e2 <- spec_eq rs s2 ;;
+  if e2 then Ret VMSecond else
+  fr <- from_specifier name rs ;;
+  Ret (match fr with FAny => VMAny | FEmpty => VMEmpty | FNone => VMNone | FAtom k => VMAtom k end).
+
 (* ---- correspondence glue ---- *)
 From Verif Require Import CorrParse.
 Definition fsres_same (a b : fsres) : bool :=
@@ -53,15 +66,23 @@ Definition fsres_same (a b : fsres) : bool :=
   | FAtom x, FAtom y => clause_same x y
   | _, _ => false
   end.
+Definition vmres_same (a b : vmres) : bool :=
+  match a, b with
+  | VMFirst, VMFirst | VMSecond, VMSecond | VMNone, VMNone | VMAny, VMAny | VMEmpty, VMEmpty => true
+  | VMAtom x, VMAtom y => clause_same x y
+  | _, _ => false
+  end.
 Inductive bcase :=
 | BView (c : clause) (r : pyres spec)                     (* MarkerExpression(name, op, value).specifier *)
 | BEval (c : clause) (v : version) (b : bool)             (* MarkerExpression(...).evaluate({name: v}) *)
-| BBack (name : vname) (s : spec) (r : pyres fsres).      (* MarkerExpression.from_specifier(name, s) *)
+| BBack (name : vname) (s : spec) (r : pyres fsres)       (* MarkerExpression.from_specifier(name, s) *)
+| BMerge (kind : bool) (name : vname) (c1 c2 : clause) (r : pyres vmres).   (* _merge_single_markers on two atoms of one variable *)
 Definition check_bcase (c : bcase) : bool :=
   match c with
   | BView k r => res_same spec_same_s (get_specifier k) r
   | BEval k v b => Bool.eqb (atom_sem k v) b
   | BBack n s r => res_same fsres_same (from_specifier n s) r
+  | BMerge k n c1 c2 r => res_same vmres_same (vmerge_same k n c1 c2) r
   end.
 Fixpoint bmismatches (i : N) (l : list bcase) : list N :=
   match l with
